@@ -278,7 +278,63 @@ _FOR_ARR_CONST = re.compile(r'\bfor\s+(\w+)\s+in\s+([A-Z_][A-Z0-9_]*)\s*\{')
 _FOR_ENUM = re.compile(r'\bfor\s+\((\w+),\s*&(\w+)\)\s+in\s+([\w.]+)\.iter\(\)\.enumerate\(\)\s*\{')
 
 
-def rewrite_body(body, log, loop_var_prefix=''):
+def r14_inline_map(body, log, kind):
+    """R14: inline std's `Option::map` / `Result::map` applied to a closure literal:
+         RECV.map(|x| EXPR)  ->  match RECV { Some(x) => Some(EXPR), None => None }
+       (Result: Ok(x) => Ok(EXPR), Err(e__) => Err(e__)).  This is the definition of
+       `map` in core; Verus cannot see through an un-annotated closure."""
+    while True:
+        skip = _skip_map(body)
+        mo = None
+        for m in re.finditer(r'\.map\(\|\s*(\w+)\s*\|', body):
+            if not skip[m.start()]:
+                mo = m
+                break
+        if mo is None:
+            return body
+        p_open = body.index('(', mo.start())
+        p_close = match_brace(body, p_open, skip)
+        expr = body[mo.end():p_close].strip()
+        var = mo.group(1)
+        # receiver: walk backwards over a postfix chain
+        i = mo.start()
+        while i > 0:
+            ch = body[i - 1]
+            if ch in ')]':
+                # find matching opener
+                depth = 0
+                j = i - 1
+                closer = ch
+                opener = '(' if ch == ')' else '['
+                while j >= 0:
+                    if not skip[j]:
+                        if body[j] == closer:
+                            depth += 1
+                        elif body[j] == opener:
+                            depth -= 1
+                            if depth == 0:
+                                break
+                    j -= 1
+                i = j
+            elif ch.isalnum() or ch in '_.:' :
+                i -= 1
+            elif ch.isspace() and body[:i].rstrip().endswith(')') and False:
+                i -= 1
+            else:
+                break
+        recv = body[i:mo.start()]
+        if not recv.strip():
+            raise ExtractError('R14: no receiver for .map at offset %d' % mo.start())
+        if kind == 'option':
+            rep = 'match %s { Some(%s) => Some(%s), None => None }' % (recv, var, expr)
+        else:
+            v = var if var != '_' else '_x'
+            rep = 'match %s { Ok(%s) => Ok(%s), Err(e__) => Err(e__) }' % (recv, v, expr)
+        body = body[:i] + rep + body[p_close + 1:]
+        log.append('R14')
+
+
+def rewrite_body(body, log, r14=None):
     """Apply R1, R2, R3, R4, R9, R10 to a function body.  `log` is a list that
     receives one string per rule application."""
     # R4 -- drop log macros (debug!/trace!), possibly multi-line
@@ -305,6 +361,9 @@ def rewrite_body(body, log, loop_var_prefix=''):
         log.append('R4')
     out.append(body[i:])
     body = ''.join(out)
+
+    if r14:
+        body = r14_inline_map(body, log, r14)
 
     # R2 -- element loops over fixed arrays / slices
     def r2_enum(mo):
@@ -355,6 +414,10 @@ def rewrite_body(body, log, loop_var_prefix=''):
             body = re.sub(r'\b%s::new\(\)' % alias, 'Vec::new()', body)
             log.extend(['R3'] * n)
 
+    # R13 -- opaque map type
+    body, n = re.subn(r'\bFxHashMap::default\(\)', 'PositionCountMap::default()', body)
+    log.extend(['R13'] * n)
+
     # R9 -- constructor as function value, `_` closure parameter
     n = body.count('.map(Capture)')
     if n:
@@ -379,7 +442,9 @@ def rewrite_sig(head, ret_name, log):
 
 
 def rewrite_item(text, log):
-    """R3/R6/R11/R12 on non-function items."""
+    """R3/R6/R11/R12/R13 on non-function items."""
+    text, n = re.subn(r'\bFxHashMap<u64,\s*u8>', 'PositionCountMap', text)
+    log.extend(['R13'] * n)
     text, n = re.subn(r'SmallVec<\[([^;\]]+);\s*\d+\]>', r'Vec<\1>', text)
     log.extend(['R3'] * n)
     text, n = re.subn(r'\[&str;', "[&'static str;", text)
@@ -427,3 +492,77 @@ def loop_heads(body):
             raise ExtractError('loop body not found')
         heads.append(i)
     return heads
+
+
+# --------------------------------------------------------------------------
+# statement splitter: locate the tail expression of a (rewritten) body
+
+_BLOCK_KW = re.compile(r'(if|match|while|for|loop|unsafe)\b|\{')
+
+
+def split_statements(body):
+    """Return list of (start, end, ends_with_semicolon) for the depth-0
+    statements of `body` (a function body without its outer braces)."""
+    skip = _skip_map(body)
+    n = len(body)
+    stmts = []
+    i = 0
+    while i < n:
+        while i < n and (body[i].isspace() or skip[i]):
+            i += 1
+        if i >= n:
+            break
+        start = i
+        blocky = _BLOCK_KW.match(body, i) is not None
+        j = i
+        end = None
+        semi = False
+        while j < n:
+            if skip[j]:
+                j += 1
+                continue
+            ch = body[j]
+            if ch in '([':
+                j = match_brace(body, j, skip) + 1
+                continue
+            if ch == '{':
+                c = match_brace(body, j, skip)
+                j = c + 1
+                if blocky:
+                    # statement ends here unless followed by `else`, a method call, `?` or an operator
+                    k = j
+                    while k < n and (body[k].isspace() or skip[k]):
+                        k += 1
+                    rest = body[k:k + 5]
+                    if k >= n:
+                        end = j
+                        break
+                    if rest.startswith('else') or rest[0] in '.?;':
+                        continue
+                    end = j
+                    break
+                continue
+            if ch == ';':
+                end = j + 1
+                semi = True
+                break
+            j += 1
+        if end is None:
+            end = n
+            # strip trailing whitespace
+            while end > start and body[end - 1].isspace():
+                end -= 1
+        stmts.append((start, end, semi))
+        i = end
+    return stmts
+
+
+def tail_expr_span(body):
+    """(start, end) of the tail expression, or None if the body ends with `;`."""
+    st = split_statements(body)
+    if not st:
+        return None
+    s, e, semi = st[-1]
+    if semi:
+        return None
+    return (s, e)
